@@ -214,14 +214,24 @@ def gt_vector(gt, width):
     return _gt_bytes(gt, width)
 
 
-def bcf_encode_hts(vcf_bytes, gt_override=None):
+def bcf_encode_hts(vcf_bytes, gt_override=None, minor=2, idx_reversed=False):
     """VCF text as produced by render_vcf -> uncompressed BCF bytes (None if a line is not of the supported form).
     gt_override: {record index: [int8 vector (bytes) per sample, all of one width]} replaces the GT vectors of a record."""
     lines = vcf_bytes.decode().split("\n")
     hdr = [l for l in lines if l.startswith("#")]
     recs = [l for l in lines if l and not l.startswith("#")]
+    # idx_reversed: the contig dictionary carries explicit IDX= values that run AGAINST the order of the ##contig lines
+    # (legal BCF: the dictionary, not the listing order, numbers the contigs)
+    nctg = sum(1 for l in hdr if l.startswith("##contig="))
+    if idx_reversed:
+        k_ = [0]
+
+        def put_idx(m):
+            k_[0] += 1
+            return "%s,IDX=%d>" % (m.group(1), nctg - k_[0])
+        hdr = [re.sub(r"^(##contig=<ID=[^>]*)>", put_idx, l) for l in hdr]
     text = ("\n".join(hdr) + "\n").encode() + b"\x00"
-    out = [b"BCF\x02\x02", struct.pack("<I", len(text)), text]
+    out = [b"BCF\x02" + bytes([minor]), struct.pack("<I", len(text)), text]
     strmap, ctgmap = {"PASS": 0}, {}
     for l in hdr:
         m = re.match(r"##(FILTER|INFO|FORMAT)=<ID=([^,>]+)", l)
@@ -229,7 +239,8 @@ def bcf_encode_hts(vcf_bytes, gt_override=None):
             strmap[m.group(2)] = len(strmap)
         m = re.match(r"##contig=<ID=([^,>]+)", l)
         if m:
-            ctgmap[m.group(1)] = len(ctgmap)
+            mi = re.search(r"IDX=(\d+)", l)
+            ctgmap[m.group(1)] = int(mi.group(1)) if mi else len(ctgmap)
     for ri, l in enumerate(recs):
         f = l.split("\t")
         if len(f) < 9 or f[0] not in ctgmap:
